@@ -198,6 +198,19 @@ impl Encoder for Codec {
     type Error = EncodeError;
 
     fn encodev(&self, item: Self::Item, dst: &mut BytePages) -> Result<(), EncodeError> {
+        let len = dst.len();
+        let result = self.encode_item(item, dst);
+        if result.is_err() && dst.len() != len {
+            // drop partially encoded frame
+            let mut buf = dst.split_to(len);
+            std::mem::swap(dst, &mut buf);
+        }
+        result
+    }
+}
+
+impl Codec {
+    fn encode_item(&self, item: Encoded, dst: &mut BytePages) -> Result<(), EncodeError> {
         match item {
             Encoded::Packet(pkt) => {
                 let content_size = encode::get_encoded_size(&pkt);
